@@ -307,6 +307,7 @@ def run(repo, chk):
             ops = {at.ins[i].op for i in r[0]}
             chk.expect('yield' not in ops, 'C05.G3', f'stdlib:{stub}#no-output', 'no output may follow a fault', STDLIB)
 
+    _typechecker_keeps_checks(repo, chk)
     # ---------------- F1 preemptive flag -------------------------------------------------------------
     _preemptive(repo, chk, gf)
     # guard operands must still hold the values they were loaded with when the guard executes
@@ -315,6 +316,51 @@ def run(repo, chk):
         from ..report import Remap
         c01.run(repo, Remap(chk, {'C01.R1': 'C05.G5'}))
     chk.not_decided = ['that the VM raises flags in program order (Sphinx semantics)']
+
+
+def _typechecker_keeps_checks(repo, chk):
+    """G6: an index operation with compile-time operands is either kept for the run-time bounds check or folded
+    to exactly the element it denotes - never folded for an index outside 0..length-1 (Python's negative indices
+    count from the end; the language's do not exist)."""
+    chk.rule('C05.G6', 'the typechecker never removes a bounds check: ArrayLookup.evaluate with constant source and constant index '
+                       'keeps the lookup (with that index), or folds only for 0 <= i < length to the denoted element')
+    EXPR = 'hidc/ast/expressions.py'
+    it = Interp(repo)
+    ns = it.load('hidc/ast/__init__.py')
+    lex = it.load('hidc/lexer/__init__.py')
+    cur = lex['Cursor'](0, 0)
+    span = lex['Span'](cur, lex['Cursor'](0, 1))
+    AL, IV, SV, ByV = ns['ArrayLookup'], ns['IntValue'], ns['StringValue'], ns['ByteValue']
+    ALit = ns['ArrayLiteral']
+    sources = [('string', SV(b'hello', span), [104, 101, 108, 108, 111]),
+               ('empty string', SV(b'', span), []),
+               ('byte literal', ALit((ByV(7, span), ByV(8, span), ByV(9, span)), span), [7, 8, 9]),
+               ('int literal', ALit((IV(300, span, False), IV(-2, span, False)), span), [300, -2])]
+    n = 0
+    for label, source, elems in sources:
+        bad = None
+        for i in list(range(-len(elems) - 2, len(elems) + 3)) + [255, 256, -256, 65535, 65536, -65536, 2 ** 31, -2 ** 31, 2 ** 32 - 1]:
+            try:
+                r = AL(source, IV(i, span), cur).evaluate(None)
+            except ns['TypeCheckError']:
+                # rejecting a constant index at compile time is allowed only where the run-time access would fault
+                if 0 <= i < len(elems):
+                    bad = bad or f'index {i} is in range but rejected at compile time'
+                n += 1
+                continue
+            n += 1
+            if isinstance(r, AL):
+                idx = getattr(r.index, 'data', None)
+                if idx != i:
+                    bad = bad or f'index {i}: the kept lookup carries index {idx!r}'
+            elif isinstance(r, ns['PrimitiveValue']):
+                if not (0 <= i < len(elems)) or r.data != elems[i]:
+                    bad = bad or (f'constant index {i} into a {label} of length {len(elems)} is folded to {r.data!r}: the out_of_bounds '
+                           'check for it disappears') if not (0 <= i < len(elems)) else f'index {i} folds to {r.data!r}, expected {elems[i]}'
+            else:
+                bad = bad or f'index {i}: evaluate() returned {type(r).__name__}'
+        chk.expect(bad is None, 'C05.G6', f'ArrayLookup.evaluate[{label}]', bad or '', EXPR)
+    chk.floor('constant index trials', n, 60)
 
 
 def _length_guard_classification(repo, chk, gf):
